@@ -111,9 +111,57 @@ def c17_race_run(ctx, tier, seed):
     finally:
         shutil.rmtree(hb, ignore_errors=True)
 
+def c03_gomaxprocs(ctx, tier, seed):
+    """the answers of the real code must not depend on the number of CPUs: the whole thorough-size C03 stream (it reads all
+    8192 decoded table entries) is produced under GOMAXPROCS=3, 6 and the default, from fresh processes, and compared"""
+    import os, subprocess, shutil, glob
+    VERIF = os.path.dirname(os.path.dirname(os.path.abspath(__file__)))
+    REPO = os.environ.get("VERIF_REPO", "/repo")
+    hb = os.path.join(VERIF, ".work", "hbuild.gmp.%d" % os.getpid())
+    shutil.rmtree(hb, ignore_errors=True)
+    os.makedirs(hb)
+    try:
+        for f in glob.glob(os.path.join(VERIF, "harness", "*.go")):
+            shutil.copy(f, hb)
+        open(os.path.join(hb, "go.mod"), "w").write(open(os.path.join(VERIF, "harness", "go.mod")).read().replace("=> /repo", "=> " + REPO))
+        shutil.copy(os.path.join(REPO, "go.sum"), hb)
+        env = dict(os.environ, GOFLAGS="-mod=mod", GOPROXY="off", GOSUMDB="off", GOTOOLCHAIN="local")
+        binp = os.path.join(hb, "harness.bin")
+        p = subprocess.run(["go", "build", "-tags", "verif", "-o", binp, "."], cwd=hb, env=env, capture_output=True, text=True, timeout=900)
+        if p.returncode != 0:
+            return False, "harness build failed: " + p.stderr[-1500:]
+        outs = {}
+        for g in ("", "3", "6"):
+            d = os.path.join(hb, "out" + g)
+            e = dict(env, VERIF_KERNELS=os.path.join(VERIF, "lean", "Secp", "Gen", "kernels.json"))
+            if g:
+                e["GOMAXPROCS"] = g
+            q = subprocess.run([binp, "C03", "thorough", str(seed), d], env=e, capture_output=True, text=True, timeout=1800)
+            if q.returncode != 0:
+                return False, "harness run (GOMAXPROCS=%s) failed: %s" % (g or "default", (q.stdout + q.stderr)[-800:])
+            outs[g] = (open(os.path.join(d, "ops.txt")).read().split("\n"), open(os.path.join(d, "impl.txt")).read().split("\n"))
+        base_ops, base = outs[""]
+        for g in ("3", "6"):
+            ops, impl = outs[g]
+            if ops != base_ops:
+                # the generator builds some inputs from answers of the library (points, keys): a different stream means
+                # such an answer depends on the CPU count
+                i = next((j for j, (a, b) in enumerate(zip(base_ops, ops)) if a != b), min(len(base_ops), len(ops)))
+                return False, "GOMAXPROCS=%s changes an answer of the library that the generator builds on: operation #%d is %s by default and %s with %s CPUs" % (
+                    g, i, (base_ops[i] if i < len(base_ops) else "<none>")[:160], (ops[i] if i < len(ops) else "<none>")[:160], g)
+            for i, (a, b) in enumerate(zip(base, impl)):
+                if a != b:
+                    return False, "GOMAXPROCS=%s changes an answer: op=%s default=%s with-%s-cpus=%s" % (g, ops[i][:200], a[:200], g, b[:200])
+        ctx.setdefault("extra_coverage", {})["gomaxprocs_runs"] = {"values": ["default", 3, 6], "ops_each": len(base_ops)}
+        return True, "answers identical under GOMAXPROCS=default/3/6 (%d ops each, all 8192 table entries)" % len(base_ops)
+    finally:
+        shutil.rmtree(hb, ignore_errors=True)
+
 PROPS = {
     "C03": {
-        "level_text": "Theorems (Lean 4 kernel): the NAF digit strings satisfy pos - neg = k with no overlapping digits for EVERY byte string (per-byte identity by exhaustive kernel evaluation, then induction); splitK gives k1 + k2*lambda = k (mod N); (beta*x, y) = lambda*(x, y) on the whole group; ALL 8192 entries of the regenerated base-point table equal (j*256^(31-i))*G (checked in the kernel incrementally, row by row); ScalarBaseMultNonConst returns k*G and ScalarMultNonConst returns k*P as a well-formed (normalised, on-curve or identity) Jacobian triple for every scalar in [0,N) and EVERY point of the curve - the latter using card E = N (proved: Lagrange + at most 2 points per x + no 2-torsion), so every point is a multiple of G; the public key of d is d*G; smul is Mathlib's nsmul. The loops' models run the regenerated formula programs proved correct in C04. Correspondence: corner scalars (0, 1, 2, N-1, N-2, lambda, N-lambda, (N+-1)/2, 2^128+-1, 2^255, halves zero/negative/maximal), random scalars and points with random Z, splitK/naf/mul512 through hooks, every table entry as decoded by the REAL code (thorough: all 8192; quick: every 37th) - Jacobian results compared bit for bit and against the affine specification.",
+        "extra_steps": [("cpu-count-run", c03_gomaxprocs)],
+        "extra_is_witness": True,
+        "level_text": "Theorems (Lean 4 kernel): the NAF digit strings satisfy pos - neg = k with no overlapping digits for EVERY byte string (per-byte identity by exhaustive kernel evaluation, then induction); splitK gives k1 + k2*lambda = k (mod N); (beta*x, y) = lambda*(x, y) on the whole group; ALL 8192 entries of the regenerated base-point table equal (j*256^(31-i))*G (checked in the kernel incrementally, row by row); ScalarBaseMultNonConst returns k*G and ScalarMultNonConst returns k*P as a well-formed (normalised, on-curve or identity) Jacobian triple for every scalar in [0,N) and EVERY point of the curve - the latter using card E = N (proved: Lagrange + at most 2 points per x + no 2-torsion), so every point is a multiple of G; the public key of d is d*G; smul is Mathlib's nsmul. The loops' models run the regenerated formula programs proved correct in C04. Correspondence: corner scalars (0, 1, 2, N-1, N-2, lambda, N-lambda, (N+-1)/2, 2^128+-1, 2^255, halves zero/negative/maximal), random scalars and points with random Z, splitK/naf/mul512 through hooks, every table entry as decoded by the REAL code (thorough: all 8192; quick: every 37th) - Jacobian results compared bit for bit and against the affine specification; step cpu-count-run: the thorough-size stream (all 8192 decoded table entries) is produced from fresh processes under GOMAXPROCS=3, 6 and the default and the answers must be identical.",
         "level_note": "Trusted: Lean kernel + Mathlib group definitions; tools/gotr T2/T3/T4 (regenerated; programs, constants and table executed/compared against the real code); the loop models are hand-written mirrors of curve.go (tied by the correspondence run). Value level (see C04's note). mul512Rsh320Round is modelled as floor((a*b + 2^319)/2^320) and that model is PROVED equal to the regenerated 64-bit limb kernel of the function for every pair of 8-word operands (mul512Rsh320Round_limbs: T1 with math/bits intrinsics, interval certificate, row-by-row omega); its exactness affects only the balance of the split, not correctness (splitK_spec holds for any c1, c2). The field arithmetic of the prelude and loops of both multiplication routines is covered by the sliced programs (scalar_mult_field_arithmetic_exact, pass T2s).",
         "technique": "Lean 4 proof (Secp.Props.C03: loop invariants in Mathlib's curve group, kernel-checked table, card E = N) + differential correspondence of Jacobian results",
         "trusted_base": COMMON_TRUST + ["tools/gotr T1/T2/T2s/T3/T4", "Mathlib WeierstrassCurve.Affine.Point, Lagrange, Cauchy"],
